@@ -363,7 +363,7 @@ package stree
 //@ func (*Cursor).findNext
 //@   ghost cmp func(T, T) int
 //@   requires [C03] c != nil && len(c.path) > 0 && pathOK(c) && ordPath(c.path, cmp)
-//@   ensures  [C03] upMax: cur(c).right == nil ==> forall k int :: {k in c.path[result.1 + 1].keys} k in c.path[result.1 + 1].keys ==> k <= rank(cmp, cur(c).X)
+//@   ensures  [C03] upMax: cur(c).right == nil ==> rank(cmp, cur(c).X) in c.path[result.1 + 1].keys && forall k int :: {k in c.path[result.1 + 1].keys} k in c.path[result.1 + 1].keys ==> k <= rank(cmp, cur(c).X)
 //@   loop 1: invariant [C03] max: rank(cmp, cur(c).X) in c.path[i].keys && forall k int :: {k in c.path[i].keys} k in c.path[i].keys ==> k <= rank(cmp, cur(c).X)
 //@   ensures  [C03] down: cur(c).right != nil ==> result.0 == cur(c).right && result.1 == -1
 //@   ensures  [C03] up: cur(c).right == nil ==> result.0 == nil && -1 <= result.1 && result.1 < len(c.path) - 1
@@ -376,7 +376,7 @@ package stree
 //@ func (*Cursor).findPrev
 //@   ghost cmp func(T, T) int
 //@   requires [C03] c != nil && len(c.path) > 0 && pathOK(c) && ordPath(c.path, cmp)
-//@   ensures  [C03] upMin: cur(c).left == nil ==> forall k int :: {k in c.path[result.1 + 1].keys} k in c.path[result.1 + 1].keys ==> k >= rank(cmp, cur(c).X)
+//@   ensures  [C03] upMin: cur(c).left == nil ==> rank(cmp, cur(c).X) in c.path[result.1 + 1].keys && forall k int :: {k in c.path[result.1 + 1].keys} k in c.path[result.1 + 1].keys ==> k >= rank(cmp, cur(c).X)
 //@   loop 1: invariant [C03] min: rank(cmp, cur(c).X) in c.path[i].keys && forall k int :: {k in c.path[i].keys} k in c.path[i].keys ==> k >= rank(cmp, cur(c).X)
 //@   ensures  [C03] down: cur(c).left != nil ==> result.0 == cur(c).left && result.1 == -1
 //@   ensures  [C03] up: cur(c).left == nil ==> result.0 == nil && -1 <= result.1 && result.1 < len(c.path) - 1
@@ -406,7 +406,7 @@ package stree
 //@   ensures  [C03] last: c != nil && old(len(c.path)) != 0 && len(c.path) == 0 ==> forall k int :: {k in old(c.path[0]).keys} k in old(c.path[0]).keys ==> k <= old(rank(cmp, cur(c).X))
 //@   call findNext#1: cmp = cmp
 //@   loop 1: invariant [C03] ord: ordPath(c.path, cmp)
-//@   loop 1: invariant [C03] least: len(c.path) > old(len(c.path)) ==> cur(c) in old(cur(c).right).desc && forall k int :: {k in old(cur(c).right).keys} k in old(cur(c).right).keys ==> k in cur(c).keys || k > rank(cmp, cur(c).X)
+//@   loop 1: invariant [C03] least: len(c.path) > old(len(c.path)) ==> cur(c) in old(cur(c).right).desc && rank(cmp, cur(c).X) in old(cur(c).right).keys && forall k int :: {k in old(cur(c).right).keys} k in old(cur(c).right).keys ==> k in cur(c).keys || k > rank(cmp, cur(c).X)
 //@   ensures  [C03] invalid: c != nil && old(len(c.path)) == 0 ==> len(c.path) == 0
 //@   ensures  [C03] down: c != nil && old(len(c.path)) != 0 && old(cur(c).right) != nil ==> len(c.path) > old(len(c.path)) && samePrefix(c, old(len(c.path))) && cur(c).left == nil
 //@   ensures  [C03] downFirst: c != nil && old(len(c.path)) != 0 && old(cur(c).right) != nil ==> forall a int, b int :: {c.path[a], c.path[b]} b == old(len(c.path)) && b == a + 1 ==> c.path[b] == c.path[a].right
@@ -429,7 +429,7 @@ package stree
 //@   ensures  [C03] first: c != nil && old(len(c.path)) != 0 && len(c.path) == 0 ==> forall k int :: {k in old(c.path[0]).keys} k in old(c.path[0]).keys ==> k >= old(rank(cmp, cur(c).X))
 //@   call findPrev#1: cmp = cmp
 //@   loop 1: invariant [C03] ord: ordPath(c.path, cmp)
-//@   loop 1: invariant [C03] greatest: len(c.path) > old(len(c.path)) ==> cur(c) in old(cur(c).left).desc && forall k int :: {k in old(cur(c).left).keys} k in old(cur(c).left).keys ==> k in cur(c).keys || k < rank(cmp, cur(c).X)
+//@   loop 1: invariant [C03] greatest: len(c.path) > old(len(c.path)) ==> cur(c) in old(cur(c).left).desc && rank(cmp, cur(c).X) in old(cur(c).left).keys && forall k int :: {k in old(cur(c).left).keys} k in old(cur(c).left).keys ==> k in cur(c).keys || k < rank(cmp, cur(c).X)
 //@   ensures  [C03] invalid: c != nil && old(len(c.path)) == 0 ==> len(c.path) == 0
 //@   ensures  [C03] down: c != nil && old(len(c.path)) != 0 && old(cur(c).left) != nil ==> len(c.path) > old(len(c.path)) && samePrefix(c, old(len(c.path))) && cur(c).right == nil
 //@   ensures  [C03] downFirst: c != nil && old(len(c.path)) != 0 && old(cur(c).left) != nil ==> forall a int, b int :: {c.path[a], c.path[b]} b == old(len(c.path)) && b == a + 1 ==> c.path[b] == c.path[a].left
